@@ -98,6 +98,7 @@ open J5V.Go J5V.Json
 structure Dec (c : Cfg) (fld : Field) (v : PVal) (t : PTree) : Prop where
   prop : ∀ (props : List PropDef) (p : PropDef) (k : Nat) (st : PS),
       p.field = fld → p.path = [k] → p.jsonName ∉ st.seen → aget k st.m = none →
+      groupBusy props p st.m = false →
       decProp c props p t st =
         .ok { m := updPath props p (some v) st.m, seen := p.jsonName :: st.seen }
   elem : itemSimple fld = true → ∀ rest acc,
@@ -105,21 +106,35 @@ structure Dec (c : Cfg) (fld : Field) (v : PVal) (t : PTree) : Prop where
   mapv : itemSimple fld = true → ∀ key kraw rest acc, mget key acc = none →
       decMapMembers c fld (.cons key kraw t rest) acc = decMapMembers c fld rest (mset key v acc)
 
-theorem createField_fresh (p : PropDef) (st : PS) (h : p.jsonName ∉ st.seen) :
-    createField p st = .ok { st with seen := p.jsonName :: st.seen } := by
-  unfold createField; simp [h]
+theorem createField_fresh (props : List PropDef) (p : PropDef) (st : PS) (h : p.jsonName ∉ st.seen)
+    (hgb : groupBusy props p st.m = false) :
+    createField props p st = .ok { st with seen := p.jsonName :: st.seen } := by
+  unfold createField; simp [h, hgb]
+
+theorem groupBusy_none (props : List PropDef) (p : PropDef) (m : Fields) (h : p.group = none) :
+    groupBusy props p m = false := by
+  unfold groupBusy; rw [h]
+
+theorem groupBusy_nil (props : List PropDef) (p : PropDef) (k : Nat) (hp : p.path = [k]) :
+    groupBusy props p [] = false := by
+  unfold groupBusy
+  split
+  · simp only [hp, List.dropLast_singleton, msgAt, List.any_eq_false]
+    intro q _
+    split <;> simp [aget]
+  · rfl
 
 theorem Dec_scalar (c : Cfg) (L : OracleLaws c.O) (k : ScalarKind) (v : PVal) (t : PTree)
     (hok : scalarOk c.O k v = true) (ht : scalarNode c.O k v = .ok t) : Dec c (.scalar k) v t := by
   obtain ⟨t', tok, ht', hsn, hgt, hdec⟩ := scalarNode_roundtrip c.O L k v hok
   rw [ht] at ht'; cases ht'
   refine ⟨?_, ?_, ?_⟩
-  · intro props p kk st hf hp hs hg
+  · intro props p kk st hf hp hs hg hgb
     unfold decProp; rw [hf]; simp only []
     unfold decScalarProp
     have hne : p.path.isEmpty = false := by rw [hp]; rfl
     cases t <;> simp only [isScalarNode, Bool.false_eq_true] at hsn <;>
-      simp [createField_fresh p st hs, Outcome.bind, hne, hgt, hdec]
+      simp [createField_fresh props p st hs hgb, Outcome.bind, hne, hgt, hdec]
   · intro _ rest acc
     conv => lhs; unfold decElems
     simp [hgt, hdec]
@@ -224,11 +239,11 @@ theorem Dec_enum (c : Cfg) (ref : String) (pfx : Bytes) (opts : List (Bytes × I
     (hlook : enumOptionByName pfx opts name = some n) :
     Dec c (.enum ref) (.enum n) (.str name lit) := by
   refine ⟨?_, ?_, ?_⟩
-  · intro props p kk st hf hp hs hg
+  · intro props p kk st hf hp hs hg hgb
     unfold decProp; rw [hf]; simp only []
     unfold decEnumProp
     have hne : p.path.isEmpty = false := by rw [hp]; rfl
-    simp [createField_fresh p st hs, Outcome.bind, hne, hfind, hlook]
+    simp [createField_fresh props p st hs hgb, Outcome.bind, hne, hfind, hlook]
   · intro _ rest acc
     conv => lhs; unfold decElems
     simp [hfind, hlook]
@@ -251,10 +266,10 @@ theorem Dec_object (c : Cfg) (ref : String) (sub : List PropDef) (fs : Fields) (
     (hdec : decObjMembers c sub ms { m := [], seen := [] } = .ok ({ m := fs, seen := S }, .closed)) :
     Dec c (.object ref) (.msg fs) (.obj ms) := by
   refine ⟨?_, ?_, ?_⟩
-  · intro props p kk st hf hp hs hg
+  · intro props p kk st hf hp hs hg hgb
     unfold decProp; rw [hf]; simp only []
     have hne : p.path.isEmpty = false := by rw [hp]; rfl
-    simp only [createField_fresh p st hs, Outcome.bind, hne, hfind]
+    simp only [createField_fresh props p st hs hgb, Outcome.bind, hne, hfind]
     rw [subStart_fresh p kk { m := st.m, seen := p.jsonName :: st.seen } hp hg, hdec]
     simp [finishObjectProp, Outcome.bind, closeOk]
   · intro _ rest acc
@@ -268,13 +283,13 @@ theorem Dec_oneof (c : Cfg) (ref : String) (ops : List PropDef) (fs : Fields) (m
     (st' : PS) (found : List Bytes) (ct : Option Bytes)
     (hfind : c.env.find ref = some (.oneof ops))
     (hdec : decOneofMembers c ops ms { m := [], seen := [] } [] none = .ok (st', found, ct, .closed))
-    (hm : st'.m = fs) (hpost : oneofPost ops found ct = .ok none) :
+    (hm : st'.m = fs) (hpost : oneofPost ops found ct fs = .ok none) :
     Dec c (.oneof ref) (.msg fs) (.obj ms) := by
   refine ⟨?_, ?_, ?_⟩
-  · intro props p kk st hf hp hs hg
+  · intro props p kk st hf hp hs hg hgb
     unfold decProp; rw [hf]; simp only []
     have hne : p.path.isEmpty = false := by rw [hp]; rfl
-    simp only [createField_fresh p st hs, Outcome.bind, hfind]
+    simp only [createField_fresh props p st hs hgb, Outcome.bind, hfind]
     rw [oneofStart_fresh p kk { m := st.m, seen := p.jsonName :: st.seen } hp hg, hdec]
     simp [finishOneofProp, Outcome.bind, closeOk, hpost, applyPost, hne, hm]
   · intro _ rest acc
@@ -363,10 +378,10 @@ theorem Dec_array (c : Cfg) (item : Field) (hi : itemSimple item = true) (xs : L
     (hdec : decElems c item (elemsOf ts) [] = .ok (xs, .closed)) :
     Dec c (.array item) (.list xs) (.arr (elemsOf ts)) := by
   refine ⟨?_, by intro h; simp [itemSimple] at h, by intro h; simp [itemSimple] at h⟩
-  intro props p kk st hf hp hs hg
+  intro props p kk st hf hp hs hg hgb
   unfold decProp; rw [hf]; simp only []
   have hne : p.path.isEmpty = false := by rw [hp]; rfl
-  simp only [createField_fresh p st hs, Outcome.bind, hne, itemCheck_simple item hi]
+  simp only [createField_fresh props p st hs hgb, Outcome.bind, hne, itemCheck_simple item hi]
   rw [listStart_fresh p kk { m := st.m, seen := p.jsonName :: st.seen } hp hg, hdec]
   simp [finishArrayProp, Outcome.bind, closeOk]
 
@@ -490,10 +505,10 @@ theorem Dec_map (c : Cfg) (item : Field) (hi : itemSimple item = true) (kvs : Li
     (hdec : decMapMembers c item (membersOf es) [] = .ok (kvs, .closed)) :
     Dec c (.map item) (.map kvs) (.obj (membersOf es)) := by
   refine ⟨?_, by intro h; simp [itemSimple] at h, by intro h; simp [itemSimple] at h⟩
-  intro props p kk st hf hp hs hg
+  intro props p kk st hf hp hs hg hgb
   unfold decProp; rw [hf]; simp only []
   have hne : p.path.isEmpty = false := by rw [hp]; rfl
-  simp only [createField_fresh p st hs, Outcome.bind, hne, itemCheck_simple item hi]
+  simp only [createField_fresh props p st hs hgb, Outcome.bind, hne, itemCheck_simple item hi]
   rw [mapStart_fresh p kk { m := st.m, seen := p.jsonName :: st.seen } hp hg, hdec]
   simp [finishMapProp, Outcome.bind, closeOk]
 
@@ -704,7 +719,8 @@ theorem decObjMembers_props (c : Cfg) (props : List PropDef) (fs : Fields)
       have hstep : decProp c props p t st =
           .ok { m := filterKeys (k :: S) fs, seen := p.jsonName :: st.seen } := by
         rw [hdec.prop props p k st rfl hpk (hseen p List.mem_cons_self)
-          (by rw [hm]; exact aget_filterKeys_absent S fs k hkS)]
+          (by rw [hm]; exact aget_filterKeys_absent S fs k hkS)
+          (groupBusy_none props p st.m (hgrp p hpm))]
         rw [updPath_single props p k v st.m hpk, hgrp p hpm, clearGroup_none,
           setLeaf_store _ _ _ _ hz hec, hm, aset_filterKeys S fs k v hsorted hag hkS]
       have := ih es' { m := filterKeys (k :: S) fs, seen := p.jsonName :: st.seen } (k :: S) hrest
@@ -867,7 +883,7 @@ structure RT (c : Cfg) (f : Nat) : Prop where
     fieldsOk c.env c.O ops fs = true → fs.length ≤ 1 → encOneofBody c.env c.O f ops fs = .ok t →
     ∃ ms st' found ct, t = .obj ms ∧
       decOneofMembers c ops ms { m := [], seen := [] } [] none = .ok (st', found, ct, .closed) ∧
-      st'.m = fs ∧ oneofPost ops found ct = .ok none
+      st'.m = fs ∧ oneofPost ops found ct fs = .ok none
 
 theorem optionByNumber_mem (opts : List (Bytes × Int)) (n : Int) (name : Bytes)
     (h : optionByNumber opts n = some name) : ∃ o ∈ opts, o.1 = name := by
@@ -1141,7 +1157,7 @@ theorem RT_one (c : Cfg) (hs : c.env.simple = true) (L : OracleLaws c.O) (f : Na
       encOneofBody c.env c.O (f + 1) ops fs = .ok t →
       ∃ ms st' found ct, t = .obj ms ∧
         decOneofMembers c ops ms { m := [], seen := [] } [] none = .ok (st', found, ct, .closed) ∧
-        st'.m = fs ∧ oneofPost ops found ct = .ok none := by
+        st'.m = fs ∧ oneofPost ops found ct fs = .ok none := by
   intro ops fs t hroot hutf _ hfok hlen henc
   simp only [rootSimple, Bool.and_eq_true, decide_eq_true_eq, Bool.not_eq_true'] at hroot
   obtain ⟨⟨⟨hall, hnames⟩, hpaths⟩, hnotype⟩ := hroot
@@ -1217,6 +1233,7 @@ theorem RT_one (c : Cfg) (hs : c.env.simple = true) (L : OracleLaws c.O) (f : Na
             have hc : (ops.map (·.jsonName)).contains typeKeyBytes = true := by simpa using this
             rw [hnotype] at hc; cases hc
           have hstep := hdec.prop ops p k { m := [], seen := [] } rfl hpk (by simp) rfl
+            (groupBusy_nil ops p k hpk)
           have hm : updPath ops p (some v) [] = [(k, v)] := by
             rw [updPath_single ops p k v [] hpk, clearGroup_nil,
               setLeaf_store _ _ _ _ hz (valOk_not_emptyColl _ _ _ _ hvok)]
